@@ -420,10 +420,10 @@ func cliqueProblem(g *rg.G, s []int) string {
 // families with published values.
 
 type famCase struct {
-	name                              string
-	g                                 *rg.G
-	omega, alpha, chi, chiIdx, degen int // published; -1 = not tabulated here
-	heavyIndex                        bool // ChromaticIndex through the line graph is out of reach: skip that call
+	name                             string
+	g                                *rg.G
+	omega, alpha, chi, chiIdx, degen int  // published; -1 = not tabulated here
+	heavyIndex                       bool // ChromaticIndex through the line graph is out of reach: skip that call
 }
 
 // flowerSnark returns the flower snark J_k (k odd): 4k vertices, cubic,
